@@ -1,6 +1,7 @@
 CONSTANT Calls = {1, 2}
 CONSTANT NEp = 3
 CONSTANT MaxConc = 2
+CONSTANT Lats = {"fast"}
 INIT GenInit
 NEXT GenNext
 INVARIANTS Emit PropOK PermOK
